@@ -1002,6 +1002,14 @@ class Session:
         mE = self.echo_model[0]
         self.defs_op("clear")
         self.defs_op("add", mE)
+        # how THIS build words "stored but not deployed" (asked once, in sequence, before the deploy): the only rejection a reader
+        # may get while the writer has the model stashed. Learned rather than matched against a fixed text, so that a reworded
+        # message is not an alarm.
+        probe = send(self.port, self.echo_request(_random.Random(1))[0])
+        try:
+            not_deployed_text = json.loads(probe.body.decode("utf-8"))["errors"][0]["details"]
+        except Exception:  # noqa: BLE001
+            not_deployed_text = None
         self.defs_op("deploy")
         if self.dead or "E" not in self.model.evaluators:
             return
@@ -1051,7 +1059,7 @@ class Session:
                 if doc is None:
                     continue
                 if "errors" in doc:
-                    if with_writer and "not deployed" in doc["errors"][0]["details"]:
+                    if with_writer and not_deployed_text is not None and doc["errors"][0]["details"] == not_deployed_text:
                         not_deployed += 1
                         continue
                     f.violation("concurrent:%s:echo-rejected" % mode, "%s of E/%s answered %r with %d clients in flight" % (via, dec, resp.body[:300], clients), prefix + [r], repr(want), resp.brief())
